@@ -320,6 +320,9 @@ def judgeE2E (id : String) (ins outs0 : List String) : String :=
             else match policyComplaint with
             | some (some d, some d') =>
               if d ≠ d' then unmodelled id "clock-moved-across-the-policy-expiration"
+              -- AWS's rule that every form field must be covered by a condition is not among the clauses the property
+              -- states (expiry; every condition the policy places holds): reported as a class, not demanded
+              else if d = .fieldUncovered then agree id s!"{kind}-accept-field-uncovered"
               else
                 let cls := match d with
                   | .malformed => "post-policy-malformed-accepted"
